@@ -34,7 +34,7 @@ def plan_fn(ctx, prog_index, ncases):
         n = prog_index * ncases + k
         kind = trapgen.KINDS[(n + rot_k) % nk]
         shape = trapgen.SHAPES[(n // nk + rot_s) % ns]
-        pos = trapgen.POSITIONS[(n // nk // ns * 7 + n + rot_p) % np_]
+        pos = trapgen.POSITIONS[(n // (nk * ns) * 7 + n % (nk * ns) + rot_p) % np_]   # 7 is coprime to the number of positions
         return g.plan_case(k, kind=kind, shape=shape, position=pos)
     return f
 
